@@ -47,13 +47,38 @@ Section Link.
         ((nth r (rminus o (f (pert o x i j h)) (f x)) 0 - 0) * / h) by ring.
     lra.
   Qed.
+
+  (** the same for the first-derivative output of the K = 2 routine of the code as it is now: the column the routine
+      returns is the K = 1 column (first-order step [eps o]), so the same bound holds - the statement that
+      [k2_jac_accuracy_refuted] (FwdDiff, historical) shows to fail for the step [sqrteps o] used before 41b038a *)
+  Theorem k2_jac_entry_error : forall (JT HT : Type) (f : list X -> Y) (x : list X) (i j r : nat) (M2 : R),
+    current_code o -> (i < length x)%nat -> (j < dofX o (getx o i x))%nat ->
+    let h := step o (eps o) (getx o i x) j in
+    let phi := fun t => nth r (rminus o (f (pert o x i j t)) (f x)) 0 in
+    0 < h -> phi 0 = 0 ->
+    (r < length (rminus o (f (pert o x i j h)) (f x)))%nat ->
+    (forall t, 0 <= t <= 0 + h -> forall k, (k <= 2)%nat -> ex_derive_n phi k t) ->
+    (forall t, 0 <= t <= 0 + h -> Rabs (Derive_n phi 2 t) <= M2) ->
+    exists J col, o_J (dr_numerical JT HT o 2 f x) = Some (JNum JT J) /\
+                  getJ J (offset o x i + j) = Some col /\
+                  Rabs (nth r col 0 - Derive phi 0) <= h * M2 / 2.
+  Proof.
+    intros JT HT f x i j r M2 Hc Hi Hj h phi Hh H0 Hr Hd HM.
+    destruct (k2_characterisation_current JT HT f x Hc) as [_ [_ [J [H [HJ [_ [_ [_ [_ [Hg _]]]]]]]]]].
+    exists J, (quot1 o (eps o) f x i j). split; [exact HJ|]. split; [apply Hg; assumption|].
+    apply jac_entry_error; assumption.
+  Qed.
 End Link.
 
 (** non-vacuity: one scalar argument over R, f(x) = x^2, at x = 3 with step 1/4 *)
 Definition r1_ops : Ops R R (list R) :=
   mkOps 0 Rmult Rdiv Rminus Ropp Rabs (fun a => if Req_EM_T a 0 then true else false)
         (fun _ => 1%nat) (fun _ => false) (fun w _ => w) (fun w u => w + nth 0 u 0)
-        (@length R) (fun a b => map (fun p => fst p - snd p) (combine a b)) 0 (/ 4) (/ 2) false false.
+        (@length R) (fun a b => map (fun p => fst p - snd p) (combine a b)) 0 (/ 4) (/ 2)
+        c08_fix_restore c08_fix_k2jac.
+
+Example r1_ops_current_code : current_code r1_ops.
+Proof. split; reflexivity. Qed.
 
 Example jac_entry_error_sat :
   Rabs (nth 0 (quot1 r1_ops (eps r1_ops) (fun xs => (nth 0 xs 0 * nth 0 xs 0 :: nil)) (3 :: nil) 0 0) 0 - 6) <= / 4 * 2 / 2.
@@ -62,4 +87,16 @@ Proof.
   replace ((3 + / 4) * (3 + / 4) - 3 * 3) with (6 * / 4 + / 4 * / 4) by field.
   unfold Rdiv. replace ((6 * / 4 + / 4 * / 4) * / / 4) with (6 + / 4) by field.
   replace (6 + / 4 - 6) with (/ 4) by ring. rewrite Rabs_pos_eq; lra.
+Qed.
+
+(** ... and the K = 2 routine of the current code returns that very column *)
+Example k2_jac_entry_error_sat :
+  exists J col, o_J (dr_numerical unit unit r1_ops 2 (fun xs => (nth 0 xs 0 * nth 0 xs 0 :: nil)) (3 :: nil))
+                = Some (JNum unit J) /\
+                getJ J 0 = Some col /\ Rabs (nth 0 col 0 - 6) <= / 4 * 2 / 2.
+Proof.
+  destruct (k2_characterisation_current unit unit (fun xs => (nth 0 xs 0 * nth 0 xs 0 :: nil)) (3 :: nil)
+              r1_ops_current_code) as [_ [_ [J [H [HJ [_ [_ [_ [_ [Hg _]]]]]]]]]].
+  exists J, (quot1 r1_ops (eps r1_ops) (fun xs => (nth 0 xs 0 * nth 0 xs 0 :: nil)) (3 :: nil) 0 0).
+  split; [exact HJ|]. split; [exact (Hg 0%nat 0%nat (le_n 1) (le_n 1))|]. exact jac_entry_error_sat.
 Qed.
